@@ -14,13 +14,13 @@ RULE = ("each evaluation is one generated scenario (1..8 concurrent requests wit
 ASSUMPTIONS = ["simnet's transport follows Twisted TCP semantics: no dataReceived after loseConnection(), "
                "connectionLost on a later reactor event", "KafkaBootstrapProtocol is by design allowed to drop the "
                "connection on an unknown correlation id; the non-interference clause applies to the broker client"]
-REACH_MIN = {"requests_completed_with_response": {"quick": 600, "thorough": 20000},
-             "unsolicited_frames": {"quick": 150, "thorough": 5000},
-             "cancelled_requests": {"quick": 100, "thorough": 2000},
-             "chunked_deliveries": {"quick": 2000, "thorough": 50000},
-             "oversize_prefix": {"quick": 10, "thorough": 300},
-             "reentrant_actions": {"quick": 100, "thorough": 3000},
-             "bootstrap_scenarios": {"quick": 100, "thorough": 3000}}
+REACH_MIN = {"requests_completed_with_response": {"quick": 600, "thorough": 8100},
+             "unsolicited_frames": {"quick": 150, "thorough": 2025},
+             "cancelled_requests": {"quick": 55, "thorough": 742},
+             "chunked_deliveries": {"quick": 2000, "thorough": 27000},
+             "oversize_prefix": {"quick": 10, "thorough": 135},
+             "reentrant_actions": {"quick": 100, "thorough": 1350},
+             "bootstrap_scenarios": {"quick": 88, "thorough": 1188}}
 
 
 def cases(tier, seed):
